@@ -142,7 +142,9 @@ struct OutStream {
   int file = -1;  // index into files, -1 = stdout capture
   bool failed = false;
   int fail_errno = 0;
+  long at = -1;  // >= 0: write position inside the file (fdopen on a descriptor); -1: append (fopen "w" truncated it)
 };
+static void out_store(OutStream *os, const char *buf, size_t take);
 
 struct SimState {
   uint8_t *arena = nullptr;
@@ -429,10 +431,7 @@ static ssize_t ck_out_write(void *cookie, const char *buf, size_t n) {
     cur_ctx()->soft_faults++;
     G.st.transient_short_writes++;
     take = std::min<size_t>(n - 1, (size_t)std::max(1L, a->arg));
-    if (os->file < 0)
-      G.out_cap.append(buf, take);
-    else
-      G.files[os->file].data.append(buf, take);
+    out_store(os, buf, take);
     return (ssize_t)take;
   }
   if (a && (a->ans == ANS_FAIL || a->ans == ANS_SHORT)) {
@@ -441,12 +440,23 @@ static ssize_t ck_out_write(void *cookie, const char *buf, size_t n) {
     os->failed = true;
     os->fail_errno = a->err ? a->err : ENOSPC;
   }
-  if (os->file < 0)
-    G.out_cap.append(buf, take);
-  else
-    G.files[os->file].data.append(buf, (G.w.sabotage == 2 && take > 0) ? take - 1 : take);
+  out_store(os, buf, (os->file >= 0 && G.w.sabotage == 2 && take > 0) ? take - 1 : take);
   if (take < n) errno = os->fail_errno;
   return (ssize_t)take;
+}
+static void out_store(OutStream *os, const char *buf, size_t take) {
+  if (os->file < 0) {
+    G.out_cap.append(buf, take);
+    return;
+  }
+  std::string &d = G.files[os->file].data;
+  if (os->at < 0) {
+    d.append(buf, take);
+    return;
+  }
+  if (d.size() < (size_t)os->at + take) d.resize((size_t)os->at + take);
+  memcpy(&d[(size_t)os->at], buf, take);
+  os->at += (long)take;
 }
 static int ck_out_close(void *cookie) {
   HarnessScope hs_;
@@ -1066,6 +1076,9 @@ extern "C" int __wrap_fileno(FILE *f) {
     }
     return is->fd;
   }
+  if (f == G.sim_in) return 0;
+  if (f == G.sim_out) return 1;
+  if (f == G.sim_err) return 2;
   auto ot = G.ostreams.find(f);
   if (ot != G.ostreams.end() && ot->second->file >= 0) {
     SimState::Fd fd;
@@ -1149,6 +1162,21 @@ extern "C" ssize_t __wrap_read(int fd, void *buf, size_t n) {
     return -1;
   }
   int k = index_of_fd(fd);
+  if (fd == 0 && (k < 0 || k >= (int)G.fds.size() || !G.fds[k].open)) {
+    // the process's standard input, read without stdio: same data and chunking as the simulated stdin stream
+    size_t left0 = G.in_data.size() - G.in_pos;
+    if (left0 == 0) return 0;
+    size_t chunk = left0;
+    if (!G.in_chunks.empty()) {
+      int c = G.in_chunks[G.in_chunk_i % G.in_chunks.size()];
+      G.in_chunk_i++;
+      if (c > 0) chunk = (size_t)c;
+    }
+    size_t take0 = std::min(std::min(left0, chunk), n);
+    memcpy(buf, G.in_data.data() + G.in_pos, take0);
+    G.in_pos += take0;
+    return (ssize_t)take0;
+  }
   if (k < 0 || k >= (int)G.fds.size() || !G.fds[k].open) {
     errno = EBADF;
     return -1;
@@ -1386,4 +1414,76 @@ extern "C" int __wrap_pthread_mutex_lock(pthread_mutex_t *m) {
     if (spins > 1000000) return __real_pthread_mutex_lock(m);
     fine_force_yield();
   }
+}
+
+// ---- a few more descriptor-level calls a tool may make on its standard streams ------------------------
+extern "C" int __real_isatty(int);
+extern "C" int __wrap_isatty(int fd) {
+  if (!in_lib()) return __real_isatty(fd);
+  errno = ENOTTY;  // the simulated process has pipes, not terminals
+  return 0;
+}
+extern "C" off_t __real_lseek(int, off_t, int);
+extern "C" off_t __wrap_lseek(int fd, off_t off, int whence) {
+  if (!in_lib()) return __real_lseek(fd, off, whence);
+  HarnessScope hs_;
+  int k = index_of_fd(fd);
+  if (fd <= 2 && (k < 0 || k >= (int)G.fds.size() || !G.fds[k].open)) {
+    errno = ESPIPE;
+    return (off_t)-1;
+  }
+  if (k < 0 || k >= (int)G.fds.size() || !G.fds[k].open) {
+    errno = EBADF;
+    return (off_t)-1;
+  }
+  SimFile &f = G.files[G.fds[k].file];
+  long long base = whence == SEEK_SET ? 0 : whence == SEEK_CUR ? (long long)G.fds[k].pos : (long long)f.data.size();
+  long long np = base + off;
+  if (np < 0) {
+    errno = EINVAL;
+    return (off_t)-1;
+  }
+  G.fds[k].pos = (size_t)np;
+  return (off_t)np;
+}
+// fdopen() on a descriptor of the simulated file system
+extern "C" FILE *__real_fdopen(int, const char *);
+extern "C" FILE *__wrap_fdopen(int fd, const char *mode) {
+  if (!in_lib()) return __real_fdopen(fd, mode);
+  HarnessScope hs_;
+  int k = index_of_fd(fd);
+  if (k < 0 || k >= (int)G.fds.size() || !G.fds[k].open) {
+    errno = EBADF;
+    return nullptr;
+  }
+  if (strchr(mode, 'w') || strchr(mode, 'a') || strchr(mode, '+')) {
+    // writing through stdio to an already open descriptor: no truncation happens here (that is open's business)
+    OutStream *os = new OutStream();
+    os->file = G.fds[k].file;
+    os->at = G.fds[k].append ? (long)G.files[os->file].data.size() : (long)G.fds[k].pos;
+    cookie_io_functions_t io = {nullptr, ck_out_write, nullptr, ck_out_close};
+    FILE *f = fopencookie(os, "w", io);
+    if (!f) {
+      delete os;
+      return nullptr;
+    }
+    G.ostreams[f] = os;
+    G.fds[k].open = false;  // the stream owns the descriptor now
+    return f;
+  }
+  InStream *is = new InStream();
+  is->data = G.files[G.fds[k].file].data;
+  is->pos = G.fds[k].pos;
+  is->is_dir = G.files[G.fds[k].file].kind == 2;
+  is->file = G.fds[k].file;
+  is->fd = fd;
+  cookie_io_functions_t rio = {ck_file_read, nullptr, ck_file_seek, ck_file_close};
+  FILE *rf = fopencookie(is, "r", rio);
+  if (!rf) {
+    delete is;
+    return nullptr;
+  }
+  G.istreams.insert(rf);
+  G.istream_cookie[rf] = is;
+  return rf;
 }
